@@ -20,6 +20,9 @@ def model_check(chk: Check, cfgs: Iterable[str], timeout: int = 1500) -> None:
     chk.require(r.distinct > 10, f'{cfg}: suspiciously small state space ({r.distinct})')
 
 
+FACTS_POLICIES = ('all', 'roots', 'model', 'roots:nd', 'model:nd', 'roots:missing', 'roots:pure', 'all:nd')
+
+
 def replay_simulated(chk: Check, cfg: str, clauses: Set[str], num: int, depth: int, seed: int,
                      in_scope=None, name: Optional[str] = None,
                      batches: int = 1) -> Dict[str, int]:
@@ -37,7 +40,7 @@ def replay_simulated(chk: Check, cfg: str, clauses: Set[str], num: int, depth: i
     if not r.ok:
       raise tlc.TLCError(f'{cfg}: {r.violated} violated during simulation:\n' + r.out[-3000:])
     for bi, beh in enumerate(behaviours):
-      policy = ('all', 'roots', 'model')[bi % 3] if 'facts' in clauses else 'all'
+      policy = FACTS_POLICIES[bi % len(FACTS_POLICIES)] if 'facts' in clauses else 'all'
       rp = symtree.Replayer(clauses, facts_policy=policy)
       d = rp.replay(beh)
       chk.traces += 1
